@@ -140,13 +140,13 @@ def loadModule (s : State) (e : Env) : Res :=
   let s1 := if s.st > XMP_STATE_UNLOADED then release s else s
   if e.res == 0 then
     -- load_prologue, loader, load_epilogue (p->mode = XMP_MODE_AUTO, p->flags = player_flags; module_quirks may
-    -- replace both for modules of its md5 table), scan
+    -- replace both for modules of its md5 table; p->pos = 0), scan
     { ret := 0, state := { s1 with st := XMP_STATE_LOADED, chn := e.mchn, len := e.mlen, ins := e.mins,
-                                    cflags := e.mcflags, mode := e.mmode } }
+                                    cflags := e.mcflags, mode := e.mmode, pos := 0 } }
   else
     -- every failure path ends in xmp_release_module
     { ret := e.res, state := { release s1 with chn := e.mchn, len := e.mlen, ins := e.mins,
-                                               cflags := e.mcflags, mode := e.mmode } }
+                                               cflags := e.mcflags, mode := e.mmode, pos := e.newPos } }
 
 /-- `xmp_start_player` -/
 def startPlayer (s : State) (rate : Int) (e : Env) : Res :=
